@@ -95,3 +95,15 @@ func init() {
 		ruleORD6(w, r)
 	})
 }
+
+func init() {
+	register("C04", "the live engine behaves like a simple map-of-records state machine", func(w *World, r *Report) {
+		ruleGRDidalloc(w, r)
+		ruleGRDidmap(w, r)
+		ruleGRDlist(w, r)
+		ruleSIB2(w, r)
+		ruleSIB5(w, r)
+		lr := w.lockAnalysis()
+		ruleGRDrmw(w, r, lr)
+	})
+}
